@@ -4,7 +4,7 @@
    of the Charnock iteration within its 100 iterations for U in [0.1, 80]; the residual of the
    implicit equation at the returned value (convergence is declared on step size); the 1e-4
    stress-balance residual of the Janssen roughness (the stress function is not modelled). *)
-From Coq Require Import Reals List.
+From Coq Require Import Reals List Bool.
 From OSU.Model Require Import Roughness.
 From OSU.Proofs Require Import Roughness.
 Import ListNotations.
@@ -116,6 +116,11 @@ Theorem newton_converged_step : forall f cfg guess x s,
   x = s_x2 s /\ Rabs (x - s_x1 s) < n_atol cfg /\
   Rabs (x - s_x1 s) / Rmax (Rabs (s_x1 s)) (n_atol cfg) < n_rtol cfg.
 Proof. exact newton_converged_step. Qed.
+
+(* an Aitken extrapolation step never declares convergence *)
+Theorem newton_done_on_regular_step : forall f cfg it s s', niter f cfg it s = NDone s' ->
+  (n_aitken cfg && Nat.eqb (it mod 3) 0) = false.
+Proof. exact niter_done_regular. Qed.
 
 (* the Janssen roughness is exp(log-root): missing or strictly positive *)
 Theorem janssen_positive_or_none : forall f guess z, janssen_point f guess = Some z -> 0 < z.
